@@ -44,6 +44,46 @@ def main(arg):
         else:
             it.close()
         return got, 'stopped', time.monotonic()
+    if sc.get('two_iterators_one_closed'):
+        # two iterations of the one dataset alive; the first is closed while
+        # the second has tasks in flight; the second goes on to its end
+        a, b = iter(ds), iter(ds)
+        got_a, got_b = [next(a)], [next(b)]
+        a.close()
+        try:
+            got_b += list(b)
+            oc = 'exhausted'
+        except BaseException as e:
+            oc = 'raised:' + type(e).__name__
+        out['first'] = {'delivered': got_a, 'outcome': 'stopped', 'extra': None}
+        out['second'] = {'delivered': got_b, 'outcome': oc, 'extra': None}
+        sys.stdout.write('RESULT ' + json.dumps(out, default=repr) + '\n')
+        sys.stdout.flush()
+        return
+    if sc.get('two_iterators_interleaved'):
+        # two iterations alive, advanced in turns; each one on its own
+        # delivers what a single iteration delivers (an error of one of them
+        # is not the end of the other)
+        its = [iter(ds), iter(ds)]
+        got = [[], []]
+        oc = [None, None]
+        extra = [None, None]
+        for _ in range(n + 5):
+            for k, it in enumerate(its):
+                if oc[k] is not None:
+                    continue
+                try:
+                    got[k].append(next(it))
+                except StopIteration:
+                    oc[k] = 'exhausted'
+                except BaseException as e:
+                    oc[k], extra[k] = 'raised', [type(e).__name__, repr(e.args)]
+        for k, name in enumerate(('first', 'second')):
+            out[name] = {'delivered': got[k], 'outcome': oc[k] or 'unfinished',
+                         'extra': extra[k]}
+        sys.stdout.write('RESULT ' + json.dumps(out, default=repr) + '\n')
+        sys.stdout.flush()
+        return
     stop = sc.get('stop') or ['exhaust']
     try:
         out['len'] = len(ds)
